@@ -336,6 +336,7 @@ type c15Run struct {
 	sess  []*simSess
 	views []*rsView
 	log   []string
+	lastAsg string // the assignments in force (rendered)
 }
 
 func (r *c15Run) logf(f string, a ...any) { r.log = append(r.log, fmt.Sprintf(f, a...)) }
@@ -349,11 +350,18 @@ func (r *c15Run) setPolicy(p *c15Program) error {
 	if err := r.n.s.SetPolicies(ctx, req); err != nil {
 		return fmt.Errorf("SetPolicies: %w", err)
 	}
+	// like a configuration reload: the assignments are only set again when they differ from what is in force;
+	// otherwise SetPolicies itself has to bind the existing assignments to the new policy objects
+	sig := verifkit.JSON(asg)
+	if sig == r.lastAsg {
+		return nil
+	}
 	for _, a := range asg {
 		if err := r.n.s.SetPolicyAssignment(ctx, &api.SetPolicyAssignmentRequest{Assignment: a}); err != nil {
 			return fmt.Errorf("SetPolicyAssignment: %w", err)
 		}
 	}
+	r.lastAsg = sig
 	return nil
 }
 
